@@ -124,6 +124,16 @@ class C06(DimwiseCheck):
             cfg["a"] = [0.0] * dim
             cfg["b"] = [1.0] * dim
             cfg.pop("long_narrow", None)
+        if cfg.get("rebalancing") and (cfg.get("focus") or cfg.get("long_narrow")) and not cfg.get("drill") and not cfg.get("cluster"):
+            # localised histories under rebalancing leave trees that are shallower than the dimension's maximum level (a rotation
+            # lifted every deepest leaf): half of them are interrupted after several steps and continued, mostly through the
+            # route that re-initialises from the returned container
+            if cfg.get("focus") and isinstance(cfg.get("bias"), list) and cfg["bias"][0] == "focus" and x.random() < 0.5:
+                cfg["bias"][1] = [x.choice([0.37, 0.71, 0.37, 0.2, 0.63]) for _ in cfg["bias"][1]]
+                cfg["evals"] = max(cfg["evals"], x.randint(6, 12))
+            if x.random() < 0.5:
+                cfg["two_legs"] = {"limit": x.choice([12, 25, 50, 100]), "route": x.choice(["restart", "restart", "continue"])}
+                cfg["use_epoch"] = False
         return sched
 
 
